@@ -16,7 +16,7 @@ pub static DEF: PropDef = PropDef {
     id: "C16",
     level: "exploration",
     engine: "query",
-    rule: "one run = a real CachedObjectStore + TieredCache (L1 from 300 bytes, i.e. evict on every insert, to 8 MB; no disk tier in the seeded phase, foyer disk tier of 64 KB..1 MB on /dev/shm in the thorough-only 'l2' phase) over the simulated store, a growing set of 80..200 write-once objects of 1 byte..6 KB written in 3..5 waves, and 2..4 concurrent reader tasks issuing 30..80 reads each (whole GET, get_range, GET with range option, If-Match / If-None-Match with right and wrong ETags, never-written keys incl. keys that share a file name or prefix with written ones); the inner store's requests are seeded scheduling points (concurrent misses on the same and on different keys), half of the runs inject request failures on the miss path; whenever a read returns bytes they must equal the backing store's object (the requested range of it), a missing key must fail; distinct = distinct grant sequence; non-trivial = completed AND an L1 eviction happened (misses on re-read keys)",
+    rule: "one run = a real CachedObjectStore + TieredCache (L1 from 300 bytes, i.e. evict on every insert, to 8 MB; no disk tier in the seeded phase, foyer disk tier of 64 KB..1 MB on /dev/shm in the thorough-only 'l2' phase) over the simulated store, a growing set of 80..200 write-once objects of 1 byte..6 KB written in 3..5 waves, and 2..4 concurrent reader tasks issuing 30..80 reads each (whole GET, get_range, GET with range option, If-Match / If-None-Match with right and wrong ETags, never-written keys incl. keys that share a file name or prefix with written ones); the inner store's requests are seeded scheduling points (concurrent misses on the same and on different keys), half of the runs inject request failures on the miss path, a third drop one read in eight at a seeded point (reader went away: a dropped leader of a coalesced miss must not poison what the others get); whenever a read returns bytes they must equal the backing store's object (the requested range of it), a missing key must fail; distinct = distinct grant sequence; non-trivial = completed AND an L1 eviction happened (misses on re-read keys)",
     quick_runs: 5000,
     thorough_runs: 30_000,
     run_cap_ms: 60_000,
@@ -53,6 +53,8 @@ fn scen(spec: RunSpec) -> ScenFut {
         };
         let cs = Arc::new(CachedObjectStore::new(store.clone(), cache.clone()));
         let faults = sim::w_bool(50);
+        // a third of the runs have readers that go away mid-request (the read's future is dropped at a seeded point)
+        let cancels = sim::w(3) == 2;
         let fb = 2 + sim::w(6);
         sim::set_cfg(|c| {
             c.adv_pct = 0;
@@ -95,12 +97,14 @@ fn scen(spec: RunSpec) -> ScenFut {
             let mut hs = Vec::new();
             for r in 0..readers {
                 let nreads = sim::w_range(30, 80);
-                let plan: Vec<(u32, usize, usize, usize)> = (0..nreads).map(|_| (sim::w(10), sim::w(written as u32 + 6) as usize, sim::w(7000) as usize, sim::w(7000) as usize)).collect();
+                let plan: Vec<(u32, usize, usize, usize, Option<u32>)> = (0..nreads)
+                    .map(|_| (sim::w(10), sim::w(written as u32 + 6) as usize, sim::w(7000) as usize, sim::w(7000) as usize, if cancels && sim::w(8) == 7 { Some(sim::w(6)) } else { None }))
+                    .collect();
                 let cs = cs.clone();
                 let model = model.clone();
                 let mismatches = mismatches.clone();
                 hs.push(tokio::spawn(async move {
-                    for (kind, k, a, b) in plan {
+                    for (kind, k, a, b, cancel) in plan {
                         let name = if k >= written {
                             // never-written keys, some sharing a file name / prefix with written ones
                             match k - written {
@@ -116,7 +120,13 @@ fn scen(spec: RunSpec) -> ScenFut {
                         };
                         let want = model.lock().unwrap().get(&name).cloned();
                         let p = Path::from(name.clone());
-                        let (what, got): (String, Result<Bytes, String>) = match kind {
+                        let cs2 = cs.clone();
+                        let want2 = want.clone();
+                        let p2 = p.clone();
+                        // every read is a request of its own; a reader that goes away drops it at a seeded point
+                        let req = tokio::spawn(async move {
+                            let (cs, want, p) = (cs2, want2, p2);
+                            let r: Option<(String, Result<Bytes, String>)> = Some(match kind {
                             0..=4 => ("get".into(), match cs.get(&p).await {
                                 Ok(g) => g.bytes().await.map_err(|e| e.to_string()),
                                 Err(e) => Err(e.to_string()),
@@ -126,7 +136,7 @@ fn scen(spec: RunSpec) -> ScenFut {
                                 let (s, e) = (a % (len + 1), b % (len + 1));
                                 let (s, e) = (s.min(e), s.max(e));
                                 if s == e {
-                                    continue;
+                                    return None;
                                 }
                                 if kind == 5 {
                                     (format!("get_range {s}..{e}"), cs.get_range(&p, s..e).await.map_err(|e| e.to_string()))
@@ -159,6 +169,28 @@ fn scen(spec: RunSpec) -> ScenFut {
                                     Ok(g) => g.bytes().await.map_err(|e| e.to_string()),
                                     Err(e) => Err(e.to_string()),
                                 })
+                            }
+                        });
+                            r
+                        });
+                        if let Some(kc) = cancel {
+                            let ab = req.abort_handle();
+                            tokio::spawn(async move {
+                                for _ in 0..kc {
+                                    sim::yield_point(0, "reader about to go away").await;
+                                }
+                                if !ab.is_finished() {
+                                    sim::fault_fired("read_request_dropped");
+                                    ab.abort();
+                                }
+                            });
+                        }
+                        let (what, got) = match req.await {
+                            Ok(Some(x)) => x,
+                            Ok(None) => continue,
+                            Err(_) => {
+                                sim::probe("read-dropped-midway");
+                                continue;
                             }
                         };
                         // oracle
